@@ -39,6 +39,8 @@ type ObSpec struct {
 	Reach      []string     `json:"reach"`
 	Solver     string       `json:"solver"`
 	TimeoutMs  int          `json:"timeout_ms"`
+	MaxSteps   int          `json:"max_steps"`   // instruction budget per path (default 4000000)
+	Diverge    bool         `json:"diverge_is_violation"` // exceeding the unwinding / step bound is reported as non-termination
 	Cuts       []sx.CutSpec `json:"cuts"`
 	Bound      string       `json:"bound"`
 	Claim      string       `json:"claim"`
@@ -240,7 +242,11 @@ func cmdRun(args []string) int {
 					continue
 				}
 				seen[v.Msg] = true
-				dir := filepath.Join(verifDir, "out", prop, r.Spec.Name+"-"+sanitize(v.Msg))
+				outRoot := filepath.Join(verifDir, "out")
+				if d := os.Getenv("VERIF_OUT_DIR"); d != "" {
+					outRoot = d // seeded runs of one property in parallel must not share replay directories
+				}
+				dir := filepath.Join(outRoot, prop, r.Spec.Name+"-"+sanitize(v.Msg))
 				rr := replayResult{Dir: dir, V: v}
 				if r.Spec.NoReplay {
 					writeReplayDir(eng, dir, r.Spec, v, open, r.Params)
@@ -401,6 +407,10 @@ func runOb(eng *sx.Engine, o ObSpec, tier string, open map[string]bool, verbose 
 	}
 	x := &sx.X{E: eng, B: smt.NewB(), S: s}
 	x.Cfg = sx.Config{Unwind: o.Unwind, MaxPaths: o.MaxPaths, MaxSteps: 4000000, AllowPanic: o.AllowPanic, OpenKnown: open, Cuts: o.Cuts, Trace: verbose}
+	if o.MaxSteps > 0 {
+		x.Cfg.MaxSteps = o.MaxSteps
+	}
+	x.Cfg.DivergeViolation = o.Diverge
 	if x.Cfg.Unwind == 0 {
 		x.Cfg.Unwind = 600
 	}
@@ -705,7 +715,11 @@ func TestVerifReplay(t *testing.T) {
 	ov, _ := json.Marshal(map[string]interface{}{"Replace": repl})
 	ovp := filepath.Join(tmp, "overlay.json")
 	os.WriteFile(ovp, ov, 0o644)
-	cmd := exec.Command("go", "test", "-tags", "verif", "-vet=off", "-count=1", "-overlay", ovp, "-run", "^TestVerifReplay$", "-v", "./"+c.Pkg)
+	args := []string{"test", "-tags", "verif", "-vet=off", "-count=1", "-overlay", ovp, "-run", "^TestVerifReplay$", "-v"}
+	if c.Kind == "diverge" {
+		args = append(args, "-timeout", "20s") // a non-terminating run reproduces as the test binary's own timeout
+	}
+	cmd := exec.Command("go", append(args, "./"+c.Pkg)...)
 	cmd.Dir = repoDir
 	cmd.Env = append(os.Environ(), "GOFLAGS=-mod=mod", "GOPROXY=off", "GOSUMDB=off", "GOTOOLCHAIN=local",
 		"VERIF_MODEL="+filepath.Join(dir, "cex.json"))
@@ -733,6 +747,9 @@ func TestVerifReplay(t *testing.T) {
 	}
 	if c.Kind == "assert" {
 		return strings.Contains(outcome, "VASSERT-FAILED: "+c.Msg), txt
+	}
+	if c.Kind == "diverge" {
+		return strings.Contains(txt, "test timed out after"), txt
 	}
 	// panic kind: any native panic other than a failed assertion reproduces it
 	return outcome != "" && outcome != "<nil>" && !strings.Contains(outcome, "VASSERT-FAILED"), txt
